@@ -31,6 +31,8 @@ type Stream struct {
 	Reads      int      // number of Read calls that returned
 	ReadsAfter int      // Reads counter snapshot helper for oracles
 	WriteErr   error
+	BlockWrites bool // the peer stopped reading and the socket buffers are full: Write blocks until the conn is closed
+	WritesBlocked int
 	Handshake  func(ctx context.Context) error // non-nil: the conn has a HandshakeContext (TLS/DTLS path)
 	CloseCalls int
 }
@@ -62,6 +64,10 @@ func (s *Stream) Read(b []byte) (int, error) {
 }
 
 func (s *Stream) Write(b []byte) (int, error) {
+	if s.BlockWrites && !s.Closed {
+		s.WritesBlocked++
+		vrt.WaitUntil("net.Conn.Write (peer not reading)", func() bool { return !s.BlockWrites || s.Closed })
+	}
 	if s.Closed {
 		return 0, net.ErrClosed
 	}
